@@ -27,7 +27,20 @@ type envState struct {
 	uuidSeq int
 	ticks   int64
 	typeCache map[string]types.Type
+
+	locks      map[*value]*lockState
+	lockEvents []lockEvent
+	lockOps    int
+	curThread  int
+	sched      *scheduler
+	slept      []value
+	sentinels  map[string]value
+	fs         *fsModel
+	tmpSeq     int
 }
+
+// scheduler is the Tier C cooperative scheduler (see sched.go).
+
 
 func newEnvState(i *interpreter) *envState {
 	return &envState{i: i, typeCache: map[string]types.Type{}}
